@@ -368,6 +368,7 @@ pub fn worker_main(mon: &mut dyn Monitor, args: WorkArgs) -> i32 {
     let mut held = 0u64;
     let mut violations_found = 0u64;
     let mut sig_counts: BTreeMap<String, u32> = BTreeMap::new();
+    let mut known_classes: BTreeSet<String> = BTreeSet::new();
     let t0 = Instant::now();
     let mut last_flush = Instant::now();
     let mut journal = std::fs::OpenOptions::new().create(true).write(true).truncate(true).open(&journal_path).ok();
@@ -437,7 +438,12 @@ pub fn worker_main(mon: &mut dyn Monitor, args: WorkArgs) -> i32 {
                 // de-duplicate on the fine signature of the unshrunk case (rules + trigger class), so that different
                 // defects sharing a coarse failure kind all get a witness
                 let base0 = narrowed.clone().unwrap_or_else(|| case.clone());
-                let pre_key = guarded(|| mon.classify(&base0, &signature)).unwrap_or_else(|_| signature.clone());
+                let mut pre_key = guarded(|| mon.classify(&base0, &signature)).unwrap_or_else(|_| signature.clone());
+                // everything explained by the same open known finding is one class (and does not count towards the cap)
+                if let Some(ix) = known_res.iter().position(|r| r.is_match(&pre_key)) {
+                    pre_key = format!("known-finding#{}", ix);
+                    known_classes.insert(pre_key.clone());
+                }
                 let seen = sig_counts.entry(pre_key).or_insert(0u32);
                 *seen += 1;
                 if *seen > 2 {
@@ -462,7 +468,7 @@ pub fn worker_main(mon: &mut dyn Monitor, args: WorkArgs) -> i32 {
                 if let Ok(mut f) = std::fs::OpenOptions::new().create(true).append(true).open(&viol_path) {
                     let _ = writeln!(f, "{}", serde_json::to_string(&rec).unwrap());
                 }
-                if sig_counts.len() >= 200 {
+                if sig_counts.len() - known_classes.len() >= 200 {
                     cov.hit("stopped_after_200_distinct_violation_classes");
                     break;
                 }
@@ -823,6 +829,11 @@ pub fn drive(id: &str, make: &dyn Fn() -> Box<dyn Monitor>, args: DriveArgs) -> 
     }
     let mut unconfirmed = 0u64;
     for (_sig, c) in by_sig {
+        // candidates already explained by an open known finding need no confirmation run
+        if let Some(k) = known.iter().find(|k| k.status == "open" && k.matches(&c.signature)) {
+            known_seen.insert(k.key.clone());
+            continue;
+        }
         let limit = mon.case_cpu_limit_s() * 3.0 + 30.0;
         let (status, res) = replay_in_subprocess(id, &c.shrunk, &dir, limit);
         let (violated, sig2, detail2) = classify_replay(&status, &res, mon.death_is_violation());
